@@ -176,6 +176,11 @@ func (env *Env) eval(e Expr) (EV, error) {
 		if t == nil {
 			t = b.T
 		}
+		if ra, ok := a.V.(StructRefV); ok {
+			if rb, ok := b.V.(StructRefV); ok {
+				return EV{V: StructRefV{Ite(c, ra.Ref, rb.Ref)}, T: t}, nil
+			}
+		}
 		av, bv := env.materialize(a), env.materialize(b)
 		if t == nil {
 			at, ok1 := av.(Term)
@@ -648,6 +653,9 @@ func (env *Env) sel(x *ESel) (EV, error) {
 			if sort == "" {
 				return EV{}, fmt.Errorf("ghost field %s has unsupported sort %s", x.Name, g.Sort)
 			}
+			if g.Sort == "ref" {
+				ex.markRef("ghost:" + g.Type + "." + g.Name)
+			}
 			h := ex.heap(env.st, "ghost:"+g.Type+"."+g.Name, ArrSort(sort))
 			return EV{V: Select(h, ref)}, nil
 		}
@@ -725,7 +733,7 @@ func (env *Env) index(x *EIndex) (EV, error) {
 			return EV{}, fmt.Errorf("index of untyped slice")
 		}
 		et := v.T.Underlying().(*types.Slice).Elem()
-		l := ex.elemLoc(et, p.Arr, Add(p.Off, i))
+		l := ex.elemLoc(et, p.Arr, Ix(p.Off, i))
 		if l.Kind == LStruct {
 			return EV{V: StructRefV{l.Ref}, T: et}, nil
 		}
@@ -812,6 +820,16 @@ func (env *Env) call(x *ECall) (EV, error) {
 		if err != nil {
 			return EV{}, err
 		}
+		if pr, isPkg := recv.V.(pkgRef); isPkg {
+			if md, ok := ex.ctx.specs.Macros[s.Name]; ok && md.Pkg == pr.p.Pkg.Name() {
+				args, err := env.args(x.Args)
+				if err != nil {
+					return EV{}, err
+				}
+				return env.macro(md, args)
+			}
+			return EV{}, &bindErr{fmt.Sprintf("no pred/spec %s in package %s", s.Name, pr.p.Pkg.Name())}
+		}
 		if _, isPkg := recv.V.(pkgRef); !isPkg {
 			for _, k := range ghostTypeKeys(recv.T) {
 				if md, ok := ex.ctx.specs.Macros[k+"."+s.Name]; ok {
@@ -826,6 +844,37 @@ func (env *Env) call(x *ECall) (EV, error) {
 		return EV{}, fmt.Errorf("unsupported call form")
 	}
 	switch id.Name {
+	case "sentAt":
+		// sentAt("elemtype", ch): the send log of a channel given as a raw reference
+		name, ok := x.Args[0].(*EStr)
+		if !ok || len(x.Args) != 2 {
+			return EV{}, fmt.Errorf("sentAt(\"elemtype\", ref)")
+		}
+		ref, err := env.evalTerm(x.Args[1])
+		if err != nil {
+			return EV{}, err
+		}
+		return EV{V: Select(ex.heap(env.st, "chan:"+name.V+"#sent", ArrSort(SLog)), ref)}, nil
+	case "gh", "callsOf":
+		// gh("Type.field", ref): a ghost field read at an arbitrary reference;
+		// callsOf("pkg.Type.Method", ref): the call log of a logged method at an arbitrary receiver
+		name, ok := x.Args[0].(*EStr)
+		if !ok || len(x.Args) != 2 {
+			return EV{}, fmt.Errorf("%s(\"name\", ref)", id.Name)
+		}
+		ref, err := env.evalTerm(x.Args[1])
+		if err != nil {
+			return EV{}, err
+		}
+		if id.Name == "callsOf" {
+			return EV{V: Select(ex.heap(env.st, "calls:"+name.V, ArrSort(SLog)), ref)}, nil
+		}
+		g, ok := ex.ctx.specs.Ghosts[name.V]
+		if !ok {
+			return EV{}, &bindErr{"unknown ghost field " + name.V}
+		}
+		sort, _ := env.ghostSort(g)
+		return EV{V: Select(ex.heap(env.st, "ghost:"+g.Type+"."+g.Name, ArrSort(sort)), ref)}, nil
 	case "calls":
 		if len(x.Args) != 1 {
 			return EV{}, fmt.Errorf("calls(recv.Method)")
@@ -866,6 +915,21 @@ func (env *Env) call(x *ECall) (EV, error) {
 			return EV{}, err
 		}
 		return EV{V: Eq(iv.Tag, IntT(int64(ex.ctx.typeID(t))))}, nil
+	case "embedded":
+		// embedded(x, T): the T embedded in (or equal to) the dynamic value of interface x
+		v, err := env.eval(x.Args[0])
+		if err != nil {
+			return EV{}, err
+		}
+		iv, ok := v.V.(IfaceV)
+		if !ok {
+			return EV{}, fmt.Errorf("embedded needs an interface value")
+		}
+		t, err := env.typeArg(x.Args[1])
+		if err != nil {
+			return EV{}, err
+		}
+		return EV{V: StructRefV{ex.embeddedRef(t, iv)}, T: t}, nil
 	case "as":
 		// as(x, T): the payload of interface value x viewed as T
 		v, err := env.eval(x.Args[0])
@@ -963,6 +1027,10 @@ func (env *Env) call(x *ECall) (EV, error) {
 		return EV{V: Gt(r, top)}, nil
 	case "sent", "recvd", "closed", "chancap":
 		ch, ok := args[0].V.(Term)
+		if !ok || args[0].T == nil {
+			return EV{}, fmt.Errorf("%s needs a typed channel (use sentAt(\"elemtype\", ch) for raw references)", id.Name)
+		}
+		ct, ok := args[0].T.Underlying().(*types.Chan)
 		if !ok {
 			return EV{}, fmt.Errorf("%s needs a channel", id.Name)
 		}
@@ -974,7 +1042,22 @@ func (env *Env) call(x *ECall) (EV, error) {
 		if name == "chancap" {
 			name, sort = "cap", SInt
 		}
-		return EV{V: Select(ex.heap(env.st, "chan#"+name, ArrSort(sort)), ch)}, nil
+		return EV{V: Select(ex.heap(env.st, chanHeap(ct.Elem(), name), ArrSort(sort)), ch)}, nil
+	case "mkiface":
+		tg, ok1 := args[0].V.(Term)
+		rf, ok2 := args[1].V.(Term)
+		if !ok1 || !ok2 {
+			return EV{}, fmt.Errorf("mkiface(tag, ref)")
+		}
+		return EV{V: IfaceV{tg, rf}}, nil
+	case "argsOf":
+		vals := make([]Val, len(args))
+		ts := make([]types.Type, len(args))
+		for i, a := range args {
+			vals[i] = env.materialize(a)
+			ts[i] = a.T
+		}
+		return EV{V: ex.argsElem(env.st, vals, ts)}, nil
 	case "elemOf":
 		return EV{V: ex.valToElem(env.st, env.materialize(args[0]), args[0].T)}, nil
 	case "isnil":
@@ -1087,8 +1170,43 @@ func (env *Env) macro(md *MacroDef, args []EV) (EV, error) {
 	n.frame = nil
 	n.loop = nil
 	n.depth = env.depth + 1
+	if p, ok := env.ex.ctx.byName[md.Pkg]; ok {
+		n.pkg = p
+	}
 	for i, p := range md.Params {
 		n.bound[p.Name] = args[i]
 	}
 	return n.eval(md.Body)
+}
+
+// embeddedRef: reference of the struct of type t embedded in the dynamic value of an interface
+// (one uninterpreted function per t, defined by an axiom per concrete repo type that is t, *t,
+// or a struct (pointer) with an embedded field of type t).
+func (ex *Exec) embeddedRef(t types.Type, iv IfaceV) Term {
+	fn := "emb:" + typeKey(t)
+	sym := smtSym(fn)
+	if !ex.D.seen[sym] {
+		ex.D.Fun(fn, []string{SInt, SInt}, SInt)
+		for _, ct := range ex.ctx.allTypes {
+			st := structOf(ct)
+			if st == nil {
+				continue
+			}
+			for _, dyn := range []types.Type{ct, types.NewPointer(ct)} {
+				tag := ex.ctx.typeID(dyn)
+				if types.Identical(ct, t) {
+					ex.D.lines = append(ex.D.lines, declLine{sym, fmt.Sprintf("(assert (forall ((r Int)) (! (= (%s %d r) r) :pattern ((%s %d r)))))", sym, tag, sym, tag)})
+					continue
+				}
+				for i := 0; i < st.NumFields(); i++ {
+					f := st.Field(i)
+					if f.Embedded() && types.Identical(f.Type(), t) {
+						sub := ex.subRef(typeKey(ct)+"."+f.Name(), Term{"r", SInt})
+						ex.D.lines = append(ex.D.lines, declLine{sym, fmt.Sprintf("(assert (forall ((r Int)) (! (= (%s %d r) %s) :pattern ((%s %d r)))))", sym, tag, sub.S, sym, tag)})
+					}
+				}
+			}
+		}
+	}
+	return App(SInt, sym, iv.Tag, iv.Ref)
 }
